@@ -446,6 +446,135 @@ ANCHORS: dict[str, dict[str, set | None]] = {
 }
 
 
+def unbound_after_branches(ctx, rule: str, modules: list[str], only=None) -> int:
+    """a local bound in some arms of an if / elif / match but not in all of the arms that fall through, and read afterwards: on the
+    arm that leaves it out the read raises UnboundLocalError (or, inside a loop, silently sees the previous round's value).
+    Structured definite-assignment: branches intersect; loops, try blocks and with blocks are taken optimistically (what they bind
+    counts as bound afterwards), so only the if / match shape is ever reported"""
+    prog = ctx.program
+    n = 0
+
+    def terminates(block):
+        if not block:
+            return False
+        s_ = block[-1]
+        if isinstance(s_, (ast.Return, ast.Raise, ast.Continue, ast.Break)):
+            return True
+        if isinstance(s_, ast.Expr) and isinstance(s_.value, ast.Call) and u(s_.value.func).split(".")[-1] == "assert_never":
+            return True
+        if isinstance(s_, ast.If):
+            return bool(s_.orelse) and terminates(s_.body) and terminates(s_.orelse)
+        if isinstance(s_, ast.Match):
+            return any(_irrefutable(c.pattern) and c.guard is None for c in s_.cases) and all(terminates(c.body) for c in s_.cases)
+        return False
+
+    def _irrefutable(p):
+        return (isinstance(p, ast.MatchAs) and p.pattern is None) or (isinstance(p, ast.MatchOr) and any(_irrefutable(x) for x in p.patterns))
+
+    def stores(node):
+        out = set()
+        for x in ast.walk(node):
+            if isinstance(x, ast.Name) and isinstance(x.ctx, ast.Store):
+                out.add(x.id)
+            elif isinstance(x, (ast.MatchAs, ast.MatchStar)) and x.name:
+                out.add(x.name)
+            elif isinstance(x, ast.MatchMapping) and x.rest:
+                out.add(x.rest)
+            elif isinstance(x, (ast.FunctionDef, ast.AsyncFunctionDef, ast.ClassDef)):
+                out.add(x.name)
+            elif isinstance(x, ast.alias):
+                out.add((x.asname or x.name).split(".")[0])
+            elif isinstance(x, ast.ExceptHandler) and x.name:
+                out.add(x.name)
+        return out
+    for mn in modules:
+        m = prog.module(mn)
+        scopes = [(c, fn) for c in m.classes.values() for fn in c.methods.values()] + [(None, fn) for fn in m.functions.values()]
+        for cls, fn in scopes:
+            if only is not None and not only(mn, cls.name if cls else "", fn.name):
+                continue
+            n += 1
+            body = [x for x in fn.body]
+            locals_ = stores(ast.Module(body=body, type_ignores=[])) - {a.arg for a in fn.args.posonlyargs + fn.args.args + fn.args.kwonlyargs}
+            if fn.args.vararg:
+                locals_.discard(fn.args.vararg.arg)
+            if fn.args.kwarg:
+                locals_.discard(fn.args.kwarg.arg)
+            declared = {x_ for g in ast.walk(fn) if isinstance(g, (ast.Global, ast.Nonlocal)) for x_ in g.names}
+            locals_ -= declared
+            found = []
+            maybe = {}           # name -> the branching statement after which it is bound on some arms only
+
+            def reads(expr_or_stmt, bound):
+                for x in ast.walk(expr_or_stmt):
+                    if isinstance(x, (ast.Lambda, ast.FunctionDef, ast.AsyncFunctionDef, ast.ClassDef)) and x is not expr_or_stmt:
+                        continue
+                    if isinstance(x, ast.Name) and isinstance(x.ctx, ast.Load) and x.id in maybe and x.id not in bound:
+                        found.append((x, maybe[x.id]))
+
+            def run(block, bound):
+                bound = set(bound)
+                for s_ in block:
+                    if isinstance(s_, ast.If):
+                        reads(s_.test, bound)
+                        arms = [(s_.body, run(s_.body, bound | stores(s_.test))), (s_.orelse, run(s_.orelse, bound | stores(s_.test)))]
+                    elif isinstance(s_, ast.Match):
+                        reads(s_.subject, bound)
+                        arms = []
+                        for c in s_.cases:
+                            b0 = bound | stores(c.pattern) | (stores(c.guard) if c.guard is not None else set())
+                            arms.append((c.body, run(c.body, b0)))
+                        if not any(_irrefutable(c.pattern) and c.guard is None for c in s_.cases):
+                            arms.append(([], set(bound)))        # no arm taken
+                    elif isinstance(s_, (ast.For, ast.AsyncFor, ast.While, ast.With, ast.AsyncWith, ast.Try)):
+                        # optimistic: whatever is bound inside counts as bound afterwards; the inside is judged with that too
+                        inner = bound | (stores(s_) & locals_)
+                        for fld in ("body", "orelse", "finalbody"):
+                            bb = getattr(s_, fld, None)
+                            if isinstance(bb, list) and bb and isinstance(bb[0], ast.stmt):
+                                run(bb, inner)
+                        for h in getattr(s_, "handlers", []):
+                            run(h.body, inner)
+                        bound = inner
+                        continue
+                    else:
+                        if isinstance(s_, (ast.FunctionDef, ast.AsyncFunctionDef, ast.ClassDef)):
+                            bound.add(s_.name)
+                            continue
+                        if isinstance(s_, ast.AugAssign) and isinstance(s_.target, ast.Name) and s_.target.id in maybe and s_.target.id not in bound:
+                            found.append((s_.target, maybe[s_.target.id]))       # x += .. reads x first
+                        v = getattr(s_, "value", None)
+                        if v is not None:
+                            reads(v, bound)
+                        elif not isinstance(s_, (ast.Assign, ast.AnnAssign)):
+                            reads(s_, bound)
+                        if isinstance(s_, ast.Assign):
+                            for t in s_.targets:
+                                if not isinstance(t, ast.Name):
+                                    reads(t, bound)
+                        bound |= stores(s_)
+                        continue
+                    live = [out for blk, out in arms if not terminates(blk)]
+                    if not live:
+                        return bound
+                    some = set().union(*live)
+                    every = set.intersection(*live)
+                    for nm in (some - every) & locals_:
+                        maybe[nm] = s_
+                    bound = every
+                return bound
+            run(body, set())
+            seen = set()
+            for x, br in found:
+                if x.id in seen:
+                    continue
+                seen.add(x.id)
+                ctx.fail(rule, f"{mn}.{(cls.name + '.') if cls else ''}{fn.name}: `{x.id}` read after a branch that leaves it unbound", m.path, x.lineno,
+                         f"`{x.id}` is bound on some arms of the {'match' if isinstance(br, ast.Match) else 'if'} at line {br.lineno} but not on all arms that go on; "
+                         f"on the others this read raises UnboundLocalError (or, in a loop, sees the value of an earlier round)", x)
+    return n
+
+
 def arm(ctx, prop: str | None = None) -> None:
     """arm the two generic lints on the functions the property is about, as rules <prop>.L1 / <prop>.L2"""
     prop = prop or ctx.prop
@@ -471,6 +600,10 @@ def arm(ctx, prop: str | None = None) -> None:
     n3 = shared_class_state(ctx, l3, mods)
     n4 = memo_on_mutable(ctx, l3, mods)
     ctx.ok(l3, f"{prop}: classes of {len(mods)} anchor modules", f"{n3} class-level containers, {n4} memoised attributes inspected")
+    l5 = f"{prop}.L5"
+    ctx.rule(l5, "no local is read after an if / match that binds it on some of the arms that go on but not on all (functions the property is about)", floor=1)
+    n6 = unbound_after_branches(ctx, l5, mods, only=only)
+    ctx.ok(l5, f"{prop}: branch-bound locals in {len(mods)} anchor modules", f"{n6} functions inspected")
     l4 = f"{prop}.L4"
     ctx.rule(l4, "no identity comparison (`is`) between two values other than None / booleans / sentinels / classes (functions the property is about)", floor=1)
     n5 = identity_of_values(ctx, l4, mods, only=only)
